@@ -40,7 +40,38 @@ func shortPkg(s string) string {
 }
 
 func typeKey(t types.Type) string {
-	return sanitize(shortPkg(types.TypeString(t, nil)))
+	return sanitize(shortPkg(types.TypeString(unaliasDeep(t), nil)))
+}
+
+// unaliasDeep replaces alias types (type A = B) by what they stand for, also below pointers, slices, arrays,
+// maps and channels: A and B are the same type and must share heap arrays, sorts and type tags.
+func unaliasDeep(t types.Type) types.Type {
+	switch x := t.(type) {
+	case *types.Alias:
+		return unaliasDeep(types.Unalias(x))
+	case *types.Pointer:
+		if e := unaliasDeep(x.Elem()); e != x.Elem() {
+			return types.NewPointer(e)
+		}
+	case *types.Slice:
+		if e := unaliasDeep(x.Elem()); e != x.Elem() {
+			return types.NewSlice(e)
+		}
+	case *types.Array:
+		if e := unaliasDeep(x.Elem()); e != x.Elem() {
+			return types.NewArray(e, x.Len())
+		}
+	case *types.Map:
+		k, e := unaliasDeep(x.Key()), unaliasDeep(x.Elem())
+		if k != x.Key() || e != x.Elem() {
+			return types.NewMap(k, e)
+		}
+	case *types.Chan:
+		if e := unaliasDeep(x.Elem()); e != x.Elem() {
+			return types.NewChan(x.Dir(), e)
+		}
+	}
+	return t
 }
 
 // Sorts collects on-demand sort declarations.
@@ -61,6 +92,10 @@ func newSorts() *Sorts {
 		"(declare-datatypes ((Iface 0)) (((mkiface (itag Int) (ival Int)))))",
 		"(define-fun nilslice () Slice (mkslice 0 0 0 0))",
 		"(define-fun niliface () Iface (mkiface 0 0))",
+		// ix(off, i) = off + i: position of element i of a slice in its backing array.  Kept as a function symbol so
+		// that quantifier patterns over slice elements contain no arithmetic.
+		"(declare-fun |ix| (Int Int) Int)",
+		"(assert (forall ((o Int) (i Int)) (! (= (|ix| o i) (+ o i)) :pattern ((|ix| o i)))))",
 	)
 	return s
 }
@@ -83,6 +118,7 @@ func (s *Sorts) fieldID(k string) int {
 }
 
 func (s *Sorts) typeID(t types.Type) int {
+	t = unaliasDeep(t)
 	k := types.TypeString(t, nil)
 	if id, ok := s.typeIDs[k]; ok {
 		return id
